@@ -139,7 +139,16 @@ class Material(MaterialFile):
         )
 
         # Sort by similarity score in ascending order
-        dfi = dfi.sort_values(by='similarity_score').reset_index(drop=True)
+        # Among equally similar rows, one whose reference equals the
+        # requested reference comes before one that merely contains it.
+        # Stable sort keeps file order otherwise.
+        ref = self.reference.lower() if self.reference else None
+        dfi['ref_rank'] = [
+            0 if ref is None or r.lower() == ref else 1
+            for r in dfi['reference']]
+        dfi = dfi.sort_values(
+            by=['similarity_score', 'ref_rank'],
+            kind='stable').reset_index(drop=True)
 
         # Warning if no exact matches found
         if dfi['similarity_score'].iloc[0] > 0:
